@@ -5,6 +5,7 @@
 import PonyVerif.Drive.C01
 import PonyVerif.Model.SqlRender
 import PonyVerif.Drive.C25
+import PonyVerif.Model.TupleCmp
 namespace PonyVerif.Drive.C02
 open Lean PonyVerif.Drive PonyVerif.Model.Q
 
@@ -21,6 +22,16 @@ def handle (j : Json) : Except String Json := do
           | .ok s => Json.mkObj [("ok", .str (renderText d s))]
           | .error e => Json.mkObj [("unsupported", .str e)])
         pure (Json.mkObj [("ok", .arr outs.toArray)])
+  | "checktuple" =>
+      -- the real SQLite AST of `(a1,…,an) OP (b1,…,bn)` against the verified expansion (C02_tuple_checker_sound)
+      let opn ← argStr j "cmp"
+      let op ← (match opn with
+        | "<" => pure CmpOp.lt | "<=" => pure CmpOp.le | ">" => pure CmpOp.gt | ">=" => pure CmpOp.ge
+        | o => throw s!"operator {o}")
+      let ls ← (← argArr j "left").mapM PonyVerif.Drive.C01.sqlOfJson
+      let rs ← (← argArr j "right").mapM PonyVerif.Drive.C01.sqlOfJson
+      let real ← PonyVerif.Drive.C01.sqlOfJson (← j.getObjVal? "ast")
+      pure (Json.mkObj [("accepted", .bool (ls.length == rs.length && ls.length ≥ 2 && Sql.beq (expandTuple op (ls.zip rs)) real))])
   | "streval" =>
       -- the C25 dialect evaluator for string index / slice ASTs (Model/SqlStr.lean), reached through this property's driver entry
       PonyVerif.Drive.C25.handle (j.setObjVal! "op" (Json.str "eval"))
